@@ -1,232 +1,27 @@
 """C17 -- relations and conversions between groups (two clauses).
 
-G1 (A) SO2::angle / angle_cw / angle_ccw: ranges and congruence modulo 2pi by exhaustive sign-case analysis.  The functions
-       touch their inputs only through comparisons with 0 and atan2; for every sign class of (sin, cos) in {-, -0, +0, +}^2
-       (both zero excluded by the unit constraint) the branch taken is read from the AST, the IEEE-754 quadrant table of atan2
-       gives the exact value at representative angles (rational multiples of pi) and the interval on the open classes;
-       -, abs and +-pi are the only other operations.
+G1 (A) SO2::angle / angle_cw / angle_ccw: ranges and congruence modulo 2pi by an exhaustive case analysis over the unit circle
+       (8 signed-zero points, 4 open quadrants) of the optimized IR in the sign-case / affine-angle domain of props/anglem.py.
 G2 (I+A) normalised, canonical conversions: shared with C15 (R1 on the conversion witnesses, R3).
 """
-from fractions import Fraction
-
+import anglem
 import astlib as A
 import c15
 import c17e
 import fe
-from report import Finding
-
-PI = Fraction(1)      # all angles are kept as exact rational multiples of pi
-
-# representatives: (class of sin, class of cos, angle/pi as the exact value of atan2(sin, cos))
-NEG, NZ, PZ, POS = "neg", "-0", "+0", "pos"
-
-
-def atan2_class(ys, xs):
-    """exact value (multiple of pi) or interval for atan2 given sign classes; returns (lo, hi) closed interval in units of pi"""
-    if ys == PZ:
-        return (Fraction(0), Fraction(0)) if xs in (POS, PZ) else (Fraction(1), Fraction(1))
-    if ys == NZ:
-        return (Fraction(0), Fraction(0)) if xs in (POS, PZ) else (Fraction(-1), Fraction(-1))
-    if ys == POS:
-        if xs == POS:
-            return (Fraction(0), Fraction(1, 2))
-        if xs in (PZ, NZ):
-            return (Fraction(1, 2), Fraction(1, 2))
-        return (Fraction(1, 2), Fraction(1))
-    if xs == POS:
-        return (Fraction(-1, 2), Fraction(0))
-    if xs in (PZ, NZ):
-        return (Fraction(-1, 2), Fraction(-1, 2))
-    return (Fraction(-1), Fraction(-1, 2))
-
-
-def flip(c):
-    return {NEG: POS, POS: NEG, NZ: PZ, PZ: NZ}[c]
-
-
-def cmp_zero(op, c):
-    """truth of (value op 0.) for a value of sign class c (IEEE: -0 == +0)"""
-    v = {NEG: -1, NZ: 0, PZ: 0, POS: 1}[c]
-    return {"<": v < 0, "<=": v <= 0, ">": v > 0, ">=": v >= 0, "==": v == 0, "!=": v != 0}[op]
-
-
-class Unsupported(Exception):
-    pass
-
-
-def sign_of(e, env):
-    """sign class of an argument expression (a variable or its negation)"""
-    if e[0] == "ref" and e[1] in env:
-        return env[e[1]]
-    if e[0] == "neg":
-        return flip(sign_of(e[1], env))
-    raise Unsupported("argument %s is not +-variable" % A.show(e))
-
-
-def value(e, env, point):
-    """evaluate an angle expression: returns (lo, hi) interval in units of pi; `point` = dict var -> exact angle of the element
-    (theta/pi) used when the class is an open one (so that the result is exact at the representative)"""
-    t = e[0]
-    if t == "call":
-        nm = str(e[1]).split("::")[-1]
-        if nm == "atan2":
-            ys, xs = sign_of(e[2][0], env), sign_of(e[2][1], env)
-            lo, hi = atan2_class(ys, xs)
-            if lo != hi and point is not None:
-                # exact value at the representative: atan2(+-sin, +-cos) of the representative angle
-                th = point["theta"]
-                sy = -1 if e[2][0][0] == "neg" else 1
-                sx = -1 if e[2][1][0] == "neg" else 1
-                v = th
-                if sy == -1 and sx == 1:
-                    v = -th
-                elif sy == 1 and sx == -1:
-                    v = (1 - th) if th > 0 else (-1 - th)
-                elif sy == -1 and sx == -1:
-                    v = (th - 1) if th > 0 else (th + 1)
-                return (v, v)
-            return (lo, hi)
-        if nm == "abs":
-            lo, hi = value(e[2][0], env, point)
-            if lo >= 0:
-                return (lo, hi)
-            if hi <= 0:
-                return (-hi, -lo)
-            return (Fraction(0), max(-lo, hi))
-        raise Unsupported("call %s" % nm)
-    if t == "neg":
-        lo, hi = value(e[1], env, point)
-        return (-hi, -lo)
-    if t == "op" and e[1] in ("+", "-"):
-        a, b = value(e[2], env, point), value(e[3], env, point)
-        if e[1] == "+":
-            return (a[0] + b[0], a[1] + b[1])
-        return (a[0] - b[1], a[1] - b[0])
-    if t == "ref" and e[1] == "M_PI":
-        return (PI, PI)
-    if t == "num":
-        if e[1] == 0:
-            return (Fraction(0), Fraction(0))
-        import math
-        r = float(e[1]) / math.pi
-        for q in (Fraction(1), Fraction(2), Fraction(1, 2), Fraction(-1), Fraction(-2), Fraction(-1, 2)):
-            if abs(r - float(q)) < 1e-12:
-                return (q, q)          # the literal is M_PI (or a simple multiple) to double precision
-        raise Unsupported("numeric literal %s is not a multiple of pi" % float(e[1]))
-    if t == "other" and "M_PI" in e[2]:
-        return (PI, PI)
-    raise Unsupported("expression %s" % A.show(e)[:60])
-
-
-def run_function(fn, env, point):
-    """abstractly execute the (if/else, return) body for one sign case"""
-    def ex(stmt):
-        k = stmt.get("kind")
-        if k == "CompoundStmt":
-            for c in A.kids(stmt):
-                r = ex(c)
-                if r is not None:
-                    return r
-            return None
-        if k == "IfStmt":
-            ks = A.kids(stmt)
-            c = A.to_expr(ks[0])
-            if not (c[0] == "op" and c[1] in ("<", "<=", ">", ">=") and c[3][0] == "num" and c[3][1] == 0):
-                raise Unsupported("condition %s" % A.show(c))
-            taken = cmp_zero(c[1], sign_of(c[2], env))
-            if taken:
-                return ex(ks[1])
-            if len(ks) > 2:
-                return ex(ks[2])
-            return None
-        if k == "ReturnStmt":
-            return value(A.to_expr(A.kids(stmt)[0]), env, point)
-        if k == "DeclStmt":
-            return None
-        raise Unsupported("statement %s" % k)
-    return ex(A.body(fn))
-
-
-REPS = [
-    # (sin class, cos class, theta/pi) -- theta is the principal angle atan2(sin, cos) of the representative element
-    (PZ, POS, Fraction(0)), (NZ, POS, Fraction(0)),
-    (POS, POS, Fraction(1, 4)), (POS, POS, Fraction(1, 3)),
-    (POS, PZ, Fraction(1, 2)), (POS, NZ, Fraction(1, 2)),
-    (POS, NEG, Fraction(3, 4)), (POS, NEG, Fraction(5, 6)),
-    (PZ, NEG, Fraction(1)), (NZ, NEG, Fraction(-1)),
-    (NEG, NEG, Fraction(-3, 4)), (NEG, NEG, Fraction(-2, 3)),
-    (NEG, PZ, Fraction(-1, 2)), (NEG, NZ, Fraction(-1, 2)),
-    (NEG, POS, Fraction(-1, 4)), (NEG, POS, Fraction(-1, 6)),
-]
-
-
-def check_g1(rep, idx):
-    rep.rule("G1", "SO2 angle functions: documented range and congruence mod 2pi in every sign case of (sin, cos)", minimum=32)
-    targets = {"angle_cw": (Fraction(-2), Fraction(0)), "angle_ccw": (Fraction(0), Fraction(2))}
-    for name, (rlo, rhi) in targets.items():
-        fns = [d for d in idx if d.kind in A.FUNCS and d.pattern and d.qname.endswith("SO2Base::" + name) and A.body(d.node) is not None]
-        if len(fns) != 1:
-            rep.broke("G1: SO2Base::%s not found" % name)
-            continue
-        d = fns[0]
-        # bind locals x := cos (coeffs().y()), y := sin (coeffs().x())
-        roles = {}
-        for x in A.walk(A.body(d.node)):
-            if x.get("kind") == "VarDecl" and A.kids(x):
-                t = A.ntext(A.kids(x)[-1])
-                if t.endswith("coeffs().y()"):
-                    roles[x.get("name")] = "cos"
-                elif t.endswith("coeffs().x()"):
-                    roles[x.get("name")] = "sin"
-        if sorted(roles.values()) != ["cos", "sin"]:
-            rep.broke("G1: cannot identify the sine / cosine locals of %s (%s)" % (name, roles))
-            continue
-        bad = []
-        for ys, xs, th in REPS:
-            env = {n: (ys if r == "sin" else xs) for n, r in roles.items()}
-            try:
-                exact = run_function(d.node, env, {"theta": th})
-                rng = run_function(d.node, env, None)
-            except Unsupported as ex:
-                rep.broke("G1: %s uses an operation outside the sign-case domain: %s" % (name, ex))
-                bad = None
-                break
-            if exact is None or rng is None:
-                rep.broke("G1: %s has a path without return" % name)
-                bad = None
-                break
-            in_range = rlo <= rng[0] and rng[1] <= rhi
-            congruent = ((exact[0] - th) % 2) == 0
-            ok = in_range and congruent
-            rep.instance("G1", "SO2Base::" + name, "sin:%s cos:%s theta=%s*pi" % (ys, xs, th), ok=ok,
-                         sample={"file": fe.rel(d.file), "line": d.line, "value_over_pi": [str(exact[0])], "case_interval_over_pi": [str(rng[0]), str(rng[1])]})
-            if not ok:
-                bad.append((ys, xs, th, exact, rng, in_range, congruent))
-        for ys, xs, th, exact, rng, in_range, congruent in (bad or [])[:4]:
-            rep.violation(Finding("G1", "SO2Base::" + name, "sin:%s cos:%s" % (ys, xs),
-                                  "for an element with sine %s, cosine %s (principal angle %s*pi) %s() returns %s*pi%s%s"
-                                  % (ys, xs, th, name, exact[0],
-                                     "" if in_range else ", outside the documented range [%s*pi, %s*pi] (case interval [%s, %s]*pi)" % (rlo, rhi, rng[0], rng[1]),
-                                     "" if congruent else ", not congruent to the principal angle modulo 2*pi"), d.file, d.line))
-    # angle(): log().x() = atan2(sin, cos), range [-pi, pi] by the atan2 table
-    fns = [d for d in idx if d.kind in A.FUNCS and d.pattern and d.qname.endswith("SO2Base::angle") and A.body(d.node) is not None]
-    ok = len(fns) == 1 and A.ntext(A.body(fns[0].node)) in ("{returnBase::log().x();}",)
-    if len(fns) == 1:
-        rep.instance("G1", "SO2Base::angle", "principal", ok=ok, sample={"body": A.ntext(A.body(fns[0].node))})
-        if not ok:
-            rep.broke("G1: SO2Base::angle is no longer log().x(); add it to the sign-case analysis")
 
 
 def check(rep, tier, replay=None):
     rep.explanations.append(
-        "C17 (two clauses): SO2 angle functions decided by an exhaustive case split over the sign classes of (sin, cos) including "
-        "signed zeros, with atan2's IEEE quadrant table as transfer function -- a finite set of orderings, no value is sampled; "
+        "C17 (two clauses): SO2 angle functions decided by an exhaustive case split of the unit circle (8 signed-zero points, 4 open quadrants; a quadrant is subdivided "
+        "where a comparison changes inside it): the optimized IR is interpreted over sign classes of the stored (sin, cos) and affine forms s*theta + k*pi, "
+        "with atan2's IEEE quadrant table as transfer function -- each part is decided for all its elements at once, no value is sampled; "
         "normalised/canonical conversions shared with C15 (sign shape of q_w in the IR of the conversion witnesses, normalising constructors).")
     rep.trusted.update(["clang++-16 front end", "IEEE-754 / C11 Annex F table of atan2 at signed zeros"])
     rep.assumptions.append("SE_K_3<1> == SE3, SE_K_3<2> in Galilei (composition, inverse), rot_i(t) = exp(t e_i) and the lift/project relations are decided by rules E.P / E.R (the transcendental ones along rays through the identity); Euler / isometry round trips and the C1 factorisation are NOT decided")
     d = fe.ast_dumps(["smooth::SO2", "SO3", "Impl"])
     rep.unit("umbrella TU filtered SO2 / SO3 / Impl")
-    check_g1(rep, A.index(d["smooth::SO2"]))
+    anglem.check(rep, "G1")
     c15.check_r3(rep, d["smooth::SO2"] + d["SO3"])
     c15.check_r5(rep, d["smooth::SO2"] + d["SO3"])
     # canonical hemisphere of every conversion that produces an SO3 part
